@@ -8,7 +8,7 @@ NOT_APPLICABLE = {("C%02d" % i): PENDING for i in range(1, 21)}
 
 TEXT = {
     "C11": {
-        "text": "Proved: for the documented cells of the kind x Go type matrix Marshal followed by Unmarshal returns the value in canonical form; zero-valued fields without keepzero leave the message untouched; Unmarshal leaves struct fields of absent message fields untouched; whole structs over the MTI and primitive data elements (any tag style, distinct ids) come back with every non-zero field unchanged and every other field zero, directly and after Pack and Unpack into another message object; nested structs to any depth through Composite.Marshal / Composite.Unmarshal (induction over the depth) and through Message.Marshal / Message.Unmarshal for composite data elements; the plain []byte target is refuted (F14, recorded finding). The model of the reflection loops, tag resolution and type switches is compared with the library over the whole matrix with struct types built at run time, nested to depth 3, and the oracle checks presence and the round trip directly and via Pack/Unpack (partial: keepzero).",
+        "text": "Proved: for the documented cells of the kind x Go type matrix Marshal followed by Unmarshal returns the value in canonical form; zero-valued fields without keepzero leave the message untouched; Unmarshal leaves struct fields of absent message fields untouched; whole structs over the MTI and primitive data elements (any tag style, distinct ids) come back with every non-zero field unchanged and every other field zero, directly and after Pack and Unpack into another message object; nested structs to any depth through Composite.Marshal / Composite.Unmarshal (induction over the depth) and through Message.Marshal / Message.Unmarshal for composite data elements; the plain []byte target is refuted (F14, recorded finding). The model of the reflection loops, tag resolution and type switches is compared with the library over the whole matrix with struct types built at run time, nested to depth 3, and the oracle checks presence and the round trip directly and via Pack/Unpack; what a keepzero zero field reads back as is proved for every documented cell (the zero value, a pointer to it for pointer targets, \"0\" in a string target of a Numeric field; re-marshalling it gives the same field state).",
         "design_ref": "DESIGN.md section 6 C11",
         "note": "Trusted: Coq kernel, hand-written model of the Marshal/Unmarshal reflection (validated by correspondence), reflect.StructOf-based harness.",
         "technique": "Rocq theorems over a Gallina model + differential correspondence + property oracle",
@@ -38,7 +38,7 @@ TEXT = {
         "technique": "Rocq theorems over a Gallina model + differential correspondence + property oracle",
     },
     "C14": {
-        "text": "Theorems quantified over every message state (hence every point of every operation sequence): the bits of the packed bitmap (auto-expanding or fixed), continuation bits aside, are exactly the ids GetFields reports; JSON is built from the same set and succeeds iff Pack does; Pack/JSON do not change values or the set; the set per operation: a setter adds exactly its id, Marshal of a struct adds exactly the ids of its non-zero indexed fields, UnsetField removes exactly its id and resets the whole nested state, UnsetSubfields by path (any depth) leaves nothing populated at the path, an as-new object there and every other path as it was, a successful Unpack of any bytes leaves the MTI, the bitmap and exactly the announced elements, UnmarshalJSON adds exactly the keys of the accepted document (messages, and composites at any depth), what Unmarshal copies out is a function of the populated set and the content of the populated elements; over histories: after any operation sequence every data element outside the populated set is exactly as in a new message, so nothing can come back. The model of all operations is compared with the library after every step of random and exhaustive short histories; the oracle keeps a reference set (written since creation or the last Unpack, minus unset) and checks - in a quiet replay that performs only the history's operations - that nothing that was unset, replaced by an Unpack, or decoded by a failed Unpack ever comes back (this found and led to the repair of F28 and F30); a separate check marshals structs that fail at their second subfield and shows that nothing of the failed write comes back when the element is populated again (the repair of F32).",
+        "text": "Theorems quantified over every message state (hence every point of every operation sequence): the bits of the packed bitmap (auto-expanding or fixed), continuation bits aside, are exactly the ids GetFields reports; JSON is built from the same set and succeeds iff Pack does; Pack/JSON do not change values or the set; the set per operation: a setter adds exactly its id, Marshal of a struct adds exactly the ids of its non-zero indexed fields (for nested structs: at every depth of a composite exactly the tags of the non-zero tagged fields are populated and every other subfield is as new), UnsetField removes exactly its id and resets the whole nested state, UnsetSubfields by path (any depth) leaves nothing populated at the path, an as-new object there and every other path as it was, a successful Unpack of any bytes leaves the MTI, the bitmap and exactly the announced elements, UnmarshalJSON adds exactly the keys of the accepted document (messages, and composites at any depth), what Unmarshal copies out is a function of the populated set and the content of the populated elements; over histories: after any operation sequence every data element outside the populated set is exactly as in a new message, so nothing can come back. The model of all operations is compared with the library after every step of random and exhaustive short histories; the oracle keeps a reference set (written since creation or the last Unpack, minus unset) and checks - in a quiet replay that performs only the history's operations - that nothing that was unset, replaced by an Unpack, or decoded by a failed Unpack ever comes back (this found and led to the repair of F28 and F30); a separate check marshals structs that fail at their second subfield and shows that nothing of the failed write comes back when the element is populated again (the repair of F32).",
         "design_ref": "DESIGN.md section 6 C14",
         "note": 'Trusted: Coq kernel, hand-written model (Model/Message.v, Model/Json.v, Model/MessageOps.v) validated by correspondence on every run, extraction/driver, Go harness and property oracle.',
         "technique": "Rocq theorems over a Gallina model + differential correspondence + property oracle",
@@ -100,7 +100,7 @@ TEXT = {
     "C05": {
         "text": "Set/IsSet agreement inside the current size, minimal auto-expansion with exactly the continuation bits it must set and nothing else changed, "
                 "the fixed-bitmap no-op, exact consumption of the continuation-bit chain by Unpack (binary and hex, any trailing bytes) and termination of the unpack loop are "
-                "theorems for every block size B >= 1 and every index; the bitmap model (including the state a failed Unpack leaves behind and the panics of malformed states) "
+                "theorems for every block size B >= 1 and every index (a specification written with Length 0 is the default block of 8 bytes, in the model as in field.NewBitmap, and half of the generated 8-byte message bitmaps are written that way); the bitmap model (including the state a failed Unpack leaves behind and the panics of malformed states) "
                 "is compared with field.Bitmap on exhaustive single indices, pairs, packed bitmaps and operation histories for B = 1..16. Message level: the oracle reads the bitmap off the packed bytes independently and compares it with the present elements, checks minimality and that unrepresentable elements make Pack fail (F25 is a recorded finding).",
         "design_ref": "DESIGN.md section 6 C05",
         "note": "Trusted: Coq kernel, hand-written model of field/bitmap.go (validated by correspondence), extraction/driver, Go harness and its independent reference bit set. Message-level clauses are added with the message model.",
